@@ -6,8 +6,9 @@ import Lean
 # Non-interference of the two scratch registers
 
 `lists.ids` and `spans.savedReplacements` are module globals that no `document.init()` resets.  `pert b q l s` is the
-session `s` with the placeholder queue replaced by `q` (`b = true`) or the stack of open list ids replaced by `l`
-(`b = false`).  `NIP b act`: running `act` from `s` and from a perturbed `s` gives the same result (or the same
+session `s` with the placeholder queue replaced by `q` (`.saved`), the stack of open list ids replaced by `l` (`.ids`), or
+the message log extended in front by `l` (`.log`: what has been reported before cannot influence a call, and what a call reports
+is appended to it).  `NIP b act`: running `act` from `s` and from a perturbed `s` gives the same result (or the same
 exception) and final states that again differ by a perturbation of the same register only.
 
 Same construction as `NI` (the callback), with a perturbation that is not idempotent erasure but an arbitrary
@@ -17,37 +18,45 @@ must commute with the perturbation.
 
 namespace Rimu
 
-def pert (b : Bool) (q : List Fragment) (l : List Str) (s : Session) : Session :=
+/-- which register is perturbed: the placeholder queue, the stack of open list ids, or the message log (by a prefix) -/
+inductive Reg where
+  | saved | ids | log
+deriving DecidableEq
+
+def pert (b : Reg) (q : List Fragment) (l : List Str) (s : Session) : Session :=
   match b with
-  | true => { s with saved := q }
-  | false => { s with listIds := l }
+  | .saved => { s with saved := q }
+  | .ids => { s with listIds := l }
+  | .log => { s with log := l ++ s.log }
 
 /-- the two runs agree: same value and final states one perturbation apart, or the same exception -/
-def AgreeP {α : Type} (b : Bool) (r₁ r₂ : Except PyErr (α × Session)) : Prop :=
+def AgreeP {α : Type} (b : Reg) (r₁ r₂ : Except PyErr (α × Session)) : Prop :=
   match r₁, r₂ with
   | .ok (a, s1), .ok (a', t1) => a = a' ∧ ∃ q l, t1 = pert b q l s1
   | .error e, .error e' => e = e'
   | _, _ => False
 
-def NIP {α : Type} (b : Bool) (act : M α) : Prop := ∀ s q l, AgreeP b (act.run s) (act.run (pert b q l s))
+def NIP {α : Type} (b : Reg) (act : M α) : Prop := ∀ s q l, AgreeP b (act.run s) (act.run (pert b q l s))
 
 /-- both runs end in the very same way: a special case of agreement -/
-theorem AgreeP.of_eq {α} {b : Bool} {r₁ r₂ : Except PyErr (α × Session)} (h : r₂ = r₁) : AgreeP b r₁ r₂ := by
+theorem AgreeP.of_eq {α} {b : Reg} {r₁ r₂ : Except PyErr (α × Session)} (h : r₂ = r₁) : AgreeP b r₁ r₂ := by
   subst h
   unfold AgreeP
   match r₂ with
   | .ok (a, s1) =>
-    refine ⟨rfl, s1.saved, s1.listIds, ?_⟩
-    cases b <;> rfl
+    cases b
+    · exact ⟨rfl, s1.saved, [], rfl⟩
+    · exact ⟨rfl, [], s1.listIds, rfl⟩
+    · exact ⟨rfl, [], [], rfl⟩
   | .error e => rfl
 
-theorem NIP.pure {α} (b : Bool) (a : α) : NIP b (pure a : M α) := by
+theorem NIP.pure {α} (b : Reg) (a : α) : NIP b (pure a : M α) := by
   intro s q l; exact ⟨rfl, q, l, rfl⟩
 
-theorem NIP.raise {α} (b : Bool) (e : PyErr) : NIP b (raise e : M α) := by
+theorem NIP.raise {α} (b : Reg) (e : PyErr) : NIP b (raise e : M α) := by
   intro s q l; rfl
 
-theorem NIP.bind {α β} {b : Bool} {x : M α} {f : α → M β} (hx : NIP b x) (hf : ∀ a, NIP b (f a)) : NIP b (x >>= f) := by
+theorem NIP.bind {α β} {b : Reg} {x : M α} {f : α → M β} (hx : NIP b x) (hf : ∀ a, NIP b (f a)) : NIP b (x >>= f) := by
   intro s q l
   have h := hx s q l
   simp only [Bind.bind, StateT.bind, StateT.run] at *
@@ -69,13 +78,13 @@ theorem NIP.bind {α β} {b : Bool} {x : M α} {f : α → M β} (hx : NIP b x) 
       exact hf a s1 q' l'
 
 /-- a write commutes with the perturbation -/
-theorem NIP.modify {b : Bool} {f : Session → Session} (h : ∀ s q l, f (pert b q l s) = pert b q l (f s)) :
+theorem NIP.modify {b : Reg} {f : Session → Session} (h : ∀ s q l, f (pert b q l s) = pert b q l (f s)) :
     NIP b (modify f : M Unit) := by
   intro s q l
   exact ⟨rfl, q, l, h s q l⟩
 
 /-- a write that overwrites the register: from there on the two runs are one and the same -/
-theorem NIP.modify_reset {β} {b : Bool} {f : Session → Session} (hf : ∀ s q l, f (pert b q l s) = f s) (k : Unit → M β) :
+theorem NIP.modify_reset {β} {b : Reg} {f : Session → Session} (hf : ∀ s q l, f (pert b q l s) = f s) (k : Unit → M β) :
     NIP b ((_root_.modify f : M Unit) >>= k) := by
   intro s q l
   apply AgreeP.of_eq
@@ -83,7 +92,7 @@ theorem NIP.modify_reset {β} {b : Bool} {f : Session → Session} (hf : ∀ s q
   rw [hf]
 
 /-- a read whose continuation does not look at the register -/
-theorem NIP.get_bind {β} {b : Bool} {k : Session → M β} (hk : ∀ s q l, k (pert b q l s) = k s) (h : ∀ s0, NIP b (k s0)) :
+theorem NIP.get_bind {β} {b : Reg} {k : Session → M β} (hk : ∀ s q l, k (pert b q l s) = k s) (h : ∀ s0, NIP b (k s0)) :
     NIP b (get >>= k) := by
   intro s q l
   have : (get >>= k : M β).run (pert b q l s) = (k s).run (pert b q l s) := by
@@ -93,11 +102,11 @@ theorem NIP.get_bind {β} {b : Bool} {k : Session → M β} (hk : ∀ s q l, k (
   exact h s s q l
 
 /-- a read followed by anything, argued on the two runs directly (read-modify-write sequences) -/
-theorem NIP.get_bind_rel {β} {b : Bool} {k : Session → M β}
+theorem NIP.get_bind_rel {β} {b : Reg} {k : Session → M β}
     (h : ∀ s q l, AgreeP b ((k s).run s) ((k (pert b q l s)).run (pert b q l s))) :
     NIP b (get >>= k) := fun s q l => h s q l
 
-theorem AgreeP.trans {α} {b : Bool} {r₁ r₂ r₃ : Except PyErr (α × Session)}
+theorem AgreeP.trans {α} {b : Reg} {r₁ r₂ r₃ : Except PyErr (α × Session)}
     (h1 : AgreeP b r₁ r₂) (h2 : AgreeP b r₂ r₃) : AgreeP b r₁ r₃ := by
   cases r₁ with
   | error e =>
@@ -120,8 +129,11 @@ theorem AgreeP.trans {α} {b : Bool} {r₁ r₂ r₃ : Except PyErr (α × Sessi
         obtain ⟨e1, q, l, e2⟩ := h1
         obtain ⟨e3, q', l', e4⟩ := h2
         subst e1 e3 e2 e4
-        refine ⟨rfl, q', l', ?_⟩
-        cases b <;> rfl
+        cases b
+        · exact ⟨rfl, q', l', rfl⟩
+        · exact ⟨rfl, q', l', rfl⟩
+        · refine ⟨rfl, q', l' ++ l, ?_⟩
+          simp [pert, List.append_assoc]
 
 open Lean Elab Tactic Meta
 
